@@ -182,3 +182,12 @@ Check c03_relation_is_inhabited : exists v1 w1 v2 w2 v3 w3 v4 w4,
   | _ => False
   end.
 Print Assumptions c03_relation_is_inhabited.
+
+(* the functions and closures that Natives.v models by hand are, token for token, the ones the models were written for *)
+From TI Require NativeSources.
+Theorem c03_hand_models_match_source :
+  gen_native_fns = NativeSources.modelled_fn_sources /\ gen_native_actions = NativeSources.modelled_action_sources.
+Proof. exact NativeSources.hand_models_match_source_lemma. Qed.
+Check c03_hand_models_match_source :
+  gen_native_fns = NativeSources.modelled_fn_sources /\ gen_native_actions = NativeSources.modelled_action_sources.
+Print Assumptions c03_hand_models_match_source.
